@@ -270,11 +270,10 @@ def r84(ctx, prog):
 
 
 def r85(ctx, prog):
-    f = prog.fn('operator::Operator::<NumericTypes>::eval')
-    if f is None:
-        return
-    cf = [(b, t) for b, t in f.calls() if t['callee']['name'] == 'call_function' and path_endswith(t['callee'].get('trait') or '', 'context::Context')]
-    ctx.check(len(cf) == 1, 'R8.5', 'Operator::eval:call_function', 'count', 'Context::call_function has exactly one call site (the FunctionIdentifier arm; its single invocation per evaluation is decided by C09 R9.1)', span=f.span)
+    from rules.common import terminal_call_sites
+    sites = terminal_call_sites(prog, lambda c: c.get('name') == 'call_function' and path_endswith(c.get('trait') or '', 'context::Context'), roots={'operator::Operator::eval'})
+    ctx.check(len(sites) == 1 and sites[0][0] == 'operator::Operator::eval', 'R8.5', 'Operator::eval:call_function', 'count',
+              'Context::call_function is reached from exactly one site (the FunctionIdentifier arm of Operator::eval, directly or through a private helper called only there; its single invocation per evaluation is decided by C09 R9.1; found %s)' % sites)
 
 
 def r86(ctx, prog):
